@@ -180,6 +180,38 @@ func runC05(c *fw.Ctx) {
 			c05Along1(k, in, ref.Stat(oi), x)
 		})
 	}
+	// ---- groups of shapes that collide under ad-hoc cache keys and hashes: every reducer along every dimension on every shape of a
+	// group, one after the other in one process, both orders, twice ----
+	for gi, group := range CollidingShapes {
+		for rev := 0; rev < 2; rev++ {
+			gi, group, rev := gi, group, rev
+			c.Case(func(k *fw.K) {
+				k.Key("colliding/%d/%d", gi, rev)
+				k.Count("colliding_shape_group_cases", 1)
+				for pass := 0; pass < 2; pass++ {
+					for q := range group {
+						shape := group[q]
+						if rev == 1 {
+							shape = group[len(group)-1-q]
+						}
+						for dim := range shape {
+							for oi, op := range c05Along {
+								x, _ := c05Data(k, 0, shape)
+								c05Along1(k, ref.Instr{Op: op, Dim: dim}, ref.Stat(oi), x)
+								if k.Failed() {
+									return
+								}
+							}
+						}
+					}
+				}
+			})
+		}
+	}
+	// ---- every reducer along every dimension of ONE operand object, the results kept and read only after all calls were made ----
+	for i := 0; i < c.Pick(1500, 30000); i++ {
+		c.Case(func(k *fw.K) { c05KeptResults(k) })
+	}
 	// ---- reducers on tensors with a history (built by Full/Zeros/Ones and earlier operations of a chain) ----
 	for i := 0; i < c.Pick(3000, 40000); i++ {
 		c.Case(func(k *fw.K) {
@@ -232,6 +264,61 @@ func runC05(c *fw.Ctx) {
 					}
 				}
 			})
+		}
+	}
+}
+
+// c05KeptResults: square / cubic shapes (so that reductions along different dimensions have results of EQUAL shape), the same
+// reducer called along one dimension after the other and twice along the same one on one operand object; each result object is
+// read once right away and all of them again at the end: an earlier result must still hold what it held.
+func c05KeptResults(k *fw.K) {
+	r := k.Rng
+	n := 2 + r.Intn(3)
+	shape := [][]int{{n, n}, {n, n, n}, {n, 1, n}, {2, n, 2}, {n, n, 2}}[r.Intn(5)]
+	x, cname := c05Data(k, r.Intn(3), shape)
+	rx := coinLeaf(x)
+	type kept struct {
+		in   ref.Instr
+		t    tensor.Tensor
+		want *ref.T
+	}
+	var all []kept
+	calls := 3 + r.Intn(6)
+	oi := r.Intn(len(c05Along))
+	for q := 0; q < calls; q++ {
+		if r.Intn(3) == 0 {
+			oi = r.Intn(len(c05Along)) // mostly the same reducer kind in a row
+		}
+		in := ref.Instr{Op: c05Along[oi], Dim: r.Intn(len(shape))}
+		want, err := ref.Apply(in, []*ref.T{x})
+		if err != nil {
+			k.Failf("harness: %v", err)
+			return
+		}
+		got, err, p := exec(in, []tensor.Tensor{rx})
+		if p != nil || err != nil || got == nil {
+			k.Failf("%s(%d) on shape %v: panic=%v err=%v", in.Op, in.Dim, shape, p, err)
+			return
+		}
+		all = append(all, kept{in, got, want})
+	}
+	k.Case = map[string]any{"family": "kept results", "shape": shape, "class": cname, "calls": calls}
+	k.Key("kept/%s/%s/%d", shapeKey(shape), cname, calls)
+	k.Count("kept_result_cases", 1)
+	for pass := 0; pass < 2; pass++ {
+		for q, e := range all {
+			tol := 1e-9 * (1 + maxAbs(e.want))
+			if e.in.Op == "varalong" || e.in.Op == "stdalong" {
+				tol = 1e-6 * (1 + maxAbs(e.want))
+			}
+			if err := rt.Compare(e.t, e.want, tol, 1e-9, nil, 0); err != nil {
+				k.Failf("call %d of %d on one operand of shape %v, %s(%d), read after all calls were made: %v", q+1, len(all), shape, e.in.Op, e.in.Dim, err)
+				return
+			}
+		}
+		if err := rt.Compare(rx, x, 0, 0, nil, 0); err != nil {
+			k.Failf("the operand of %d reductions changed: %v", len(all), err)
+			return
 		}
 	}
 }
